@@ -649,3 +649,107 @@ Proof.
     rewrite Hp. cbn [bind]. apply N.ltb_ge in E6. rewrite E6.
     destruct addresses; [congruence | reflexivity].
 Qed.
+
+(* ------------------------------------------------------------------------------ *)
+(* the limit per Ethereum address (20 bytes) rather than per address string        *)
+(* ------------------------------------------------------------------------------ *)
+Section PerEthereumAddress.
+  Variable hexdec : bytes -> option bytes.
+  Variable keccak : bytes -> bytes.
+  Variable recover : bytes -> bytes -> N -> option bytes.
+  Variable address_of : bytes -> option bytes.
+  Variable verify : bytes -> bytes -> bytes -> option bool.
+
+  Notation claim_tx' := (claim_tx hexdec keccak recover address_of verify).
+  Notation step' := (step hexdec keccak recover address_of verify).
+  Notation succeeds' := (succeeds hexdec keccak recover address_of verify).
+  Notation successes' := (successes hexdec keccak recover address_of verify).
+
+  (* the string e denotes the 20-byte Ethereum address d *)
+  Definition denotes (e d : bytes) : bool :=
+    match decode_address hexdec e with Ok d' => bytes_eqb d' d | Err => false end.
+
+  (* successful claims, in a history, for any spelling of the Ethereum address d *)
+  Fixpoint addr_successes (d : bytes) (w : world) (cs : list call) : N :=
+    match cs with
+    | [] => 0
+    | c :: cs' => (if succeeds' w c && denotes (call_addr c) d then 1 else 0) + addr_successes d (step' w c) cs'
+    end.
+
+  (* no two entries of the list denote the same Ethereum address *)
+  Definition unambiguous (l : list bytes) : Prop :=
+    forall x y d, In x l -> In y l -> denotes x d = true -> denotes y d = true -> x = y.
+
+  Lemma succeeds_listed : forall w c, succeeds' w c = true -> In (call_addr c) (a_list (w_air w)).
+  Proof.
+    intros w [[s e] g] H. unfold succeeds in H. cbn [call_addr fst snd].
+    destruct (claim_tx' w s e g) as [w'|] eqn:E; [|discriminate].
+    apply claim_tx_effects in E. cbv zeta in E. destruct E as [He _]. apply mem_In. exact He.
+  Qed.
+
+  Lemma addr_successes_le : forall d s cs w,
+    unambiguous (a_list (w_air w)) -> In s (a_list (w_air w)) -> denotes s d = true ->
+    addr_successes d w cs <= successes' s w cs.
+  Proof.
+    intros d s. induction cs as [|c cs IH]; intros w Hu Hin Hd; [cbn; lia|].
+    cbn [addr_successes successes].
+    destruct (step_config hexdec keccak recover address_of verify w c) as [_ [_ [Hl _]]].
+    assert (IH' : addr_successes d (step' w c) cs <= successes' s (step' w c) cs).
+    { apply IH; rewrite ?Hl; auto. }
+    destruct (succeeds' w c) eqn:Hs; cbn [andb]; [|lia].
+    destruct (denotes (call_addr c) d) eqn:Hc; [|destruct (bytes_eqb (call_addr c) s); lia].
+    assert (Heq : call_addr c = s).
+    { eapply Hu; eauto. apply succeeds_listed. exact Hs. }
+    rewrite Heq, bytes_eqb_refl. lia.
+  Qed.
+
+  Lemma addr_successes_none : forall d cs w,
+    (forall s, In s (a_list (w_air w)) -> denotes s d = false) -> addr_successes d w cs = 0.
+  Proof.
+    intros d. induction cs as [|c cs IH]; intros w Hnone; [reflexivity|].
+    cbn [addr_successes].
+    destruct (step_config hexdec keccak recover address_of verify w c) as [_ [_ [Hl _]]].
+    rewrite IH by (rewrite Hl; exact Hnone).
+    destruct (succeeds' w c) eqn:Hs; cbn [andb]; [|reflexivity].
+    rewrite (Hnone _ (succeeds_listed w c Hs)). reflexivity.
+  Qed.
+
+  (* with a list on which every Ethereum address has one spelling, no Ethereum address
+     claims more than the limit, over all histories *)
+  Theorem limit_per_ethereum_address : forall cs w d,
+    unambiguous (a_list (w_air w)) ->
+    (forall a, bmap_get a (a_counts (w_air w)) <= a_limit (w_air w)) ->
+    addr_successes d w cs <= a_limit (w_air w).
+  Proof.
+    intros cs w d Hu Hinv.
+    destruct (find (fun s => denotes s d) (a_list (w_air w))) as [s|] eqn:Ef.
+    - apply find_some in Ef as [Hin Hd].
+      pose proof (addr_successes_le d s cs w Hu Hin Hd) as H1.
+      pose proof (limit_respected hexdec keccak recover address_of verify cs w Hinv s) as H2. lia.
+    - rewrite addr_successes_none; [lia|].
+      intros s Hin. apply (find_none _ _ Ef s Hin).
+  Qed.
+End PerEthereumAddress.
+
+(* Refutation of the unrestricted statement: a list that holds one Ethereum address under
+   two spellings lets that address claim once per spelling.  Witness oracles: hex decoding
+   that ignores letter case (both spellings decode to the same 20 bytes), every signature
+   recovers the key of that address. *)
+Definition wit_hexdec (s : bytes) : option bytes :=
+  if len s =? 40 then Some (repeat 7%N 20) else Some (repeat 1%N 64 ++ [27]).
+Definition wit_lower : bytes := 48 :: 120 :: repeat 97 40.     (* "0xaaaa…" *)
+Definition wit_upper : bytes := 48 :: 120 :: repeat 65 40.     (* "0xAAAA…" *)
+Definition wit_world : world :=
+  mkWorld (mkAState (WALLET ++ [33]) 66000000 [wit_lower; wit_upper] 1 [])
+          200000000 (Some 20) 20 (mkCwl true [] 0 1000) [].
+Definition wit_calls : list call := [([65], wit_lower, [9]); ([65], wit_upper, [9])].
+
+Theorem limit_per_ethereum_address_refuted :
+  exists hexdec keccak recover address_of verify w cs d,
+    a_counts (w_air w) = [] /\ a_limit (w_air w) = 1 /\
+    addr_successes hexdec keccak recover address_of verify d w cs = 2.
+Proof.
+  exists wit_hexdec, (fun m => m), (fun _ _ _ => Some [4]), (fun _ => Some (repeat 7 20)), (fun _ _ _ => Some true),
+         wit_world, wit_calls, (repeat 7 20).
+  vm_compute. repeat split; reflexivity.
+Qed.
